@@ -2,10 +2,10 @@
    a compiler builtin, the Spec.v function: the builtin is not library code); spec leg =
    extracted Spec.v.  Values are IEEE bit patterns, the single NaN prints as the quiet NaN. *)
 type fmtrec = { p : z; e : z; dec : z -> binary_float; enc : binary_float -> z;
-                na : binary_float -> binary_float -> binary_float }
+                na : binary_float -> binary_float -> binary_float; sb : binary_float -> bool }
 
-let f32 = { p = z_of_int 24; e = z_of_int 128; dec = dec32; enc = enc32; na = nextafter32 }
-let f64 = { p = z_of_int 53; e = z_of_int 1024; dec = dec64; enc = enc64; na = nextafter64 }
+let f32 = { p = z_of_int 24; e = z_of_int 128; dec = dec32; enc = enc32; na = nextafter32; sb = signbit_fb32 }
+let f64 = { p = z_of_int 53; e = z_of_int 1024; dec = dec64; enc = enc64; na = nextafter64; sb = signbit_fb64 }
 
 let okf f v = join [ "ok"; str_of_z (f.enc v) ]
 let okb b = join [ "ok"; b2s b ]
@@ -48,7 +48,7 @@ let run_fmt f fn t =
   | "g_round" -> u1 (fun x -> resf f (g_round p e x)) (fun x -> okf f (spec_round p e x))
   | "g_abs" -> u1 (fun x -> okf f (g_abs p e x)) (fun x -> okf f (spec_fabs p e x))
   | "rint_fb" -> u1 (fun x -> resf f (e_rint_fb p e x)) (fun x -> okf f (spec_rint p e x))
-  | "signbit_fb" -> u1 (fun x -> okb (e_signbit_fb p e x)) (fun x -> okb (spec_signbit p e x))
+  | "signbit_fb" -> u1 (fun x -> okb (f.sb x)) (fun x -> okb (spec_signbit p e x))
   | "g_is_nan" -> u1 (fun x -> okb (g_is_nan p e x)) (fun x -> okb (spec_isnan p e x))
   | "g_is_inf" -> u1 (fun x -> okb (g_is_inf p e x)) (fun x -> okb (spec_isinf p e x))
   | "g_is_finite" -> u1 (fun x -> okb (g_is_finite p e x)) (fun x -> okb (spec_isfinite p e x))
